@@ -18,8 +18,25 @@ SPEC = dict(
         text='Every covered block.tlb type is a term of lawful codec combinators in Lean; for each there is a machine-checked '
              'theorem that the spec decoder inverts the spec encoder for ALL values and consumes exactly the encoded bits and '
              'refs (any continuation), plus prefix-freeness of all constructor tags. The library parsers are tied to the spec '
-             'encoder by sampled encoder->parser correspondence (every field and the remaining bits/refs compared) and by '
-             'decoding the bundled main-net block with both the spec decoder and the library. Covered: Transaction, '
+             'encoder by sampled encoder->parser correspondence (every field and the remaining bits/refs compared), by '
+             'decoding the bundled main-net block with both the spec decoder and the library, and by a READ-TRACE comparison: '
+             'every read the parser performs (kind, width, signedness, cell, order; which read ends up in which attribute) is '
+             'recorded through a recording Slice and compared with the read sequence of the spec codec (Codec.trace, proved to be an '
+             'exact read script of the spec encoding: c16_trace_accounts_for_encoding + Traced T for every covered type) on every '
+             'sampled value, on the main-net block and on one generated value per PATH of the schema term (tag alternatives x Maybe/'
+             'Either bits x flag fields with their dependent fields). PATH-COMPLETE (all paths of the whole term, <= 300, nested '
+             'types included): AccStatusChange, Account, AccountBlock, AccountState, AccountStatus, AccountStorage, BlkMasterInfo, '
+             'BlkPrevInfo, BlockCreateStats, BlockInfo, CatchainConfig, ComputeSkipReason, ConfigParams, ConsensusConfig, Counters, '
+             'CreatorStats, CurrencyCollection, DepthBalanceInfo, ExtBlkRef, ExtraCurrencyCollection, FutureSplitMerge, GlobalVersion, '
+             'HashUpdate, ImportFees, InMsgDescr, IntermediateAddress, KeyExtBlkRef, KeyMaxLt, McStateExtra, MsgMetadata, '
+             'OldMcBlocksInfo, OutMsgDescr, ShardAccount, ShardAccountBlocks, ShardAccounts, ShardDescr, ShardHashes, ShardIdent, '
+             'SigPubKey, SplitMergeInfo, StateInit, StorageInfo, StorageUsed, StorageUsedShort, TickTock, TrActionPhase, '
+             'TrBouncePhase, TrComputePhase, TrCreditPhase, TrStoragePhase, ValidatorDescr, ValidatorInfo, ValidatorSet. '
+             'LOCAL path-complete (every path of the type\'s own branch structure = one parser function; nested named types sampled '
+             'and covered by their own rows): TransactionDescr, Transaction, MsgEnvelope, InMsg, OutMsg, ValueFlow, McBlockExtra, '
+             'BlockExtra, Block, ShardStateUnsplit, ShardState. SAMPLED only: dictionary (Hashmap/HashmapAug Patricia tree) and '
+             'BinTree shapes (empty / non-empty are paths, the tree is random), prepare_transaction nesting depth (<= 3), field '
+             'values (the trace fixes their width and signedness). Covered: Transaction, '
              'TransactionDescr(7), TrStoragePhase, TrCreditPhase, TrComputePhase(2), TrActionPhase, TrBouncePhase(3), '
              'AccStatusChange, ComputeSkipReason, SplitMergeInfo, AccountStatus, HashUpdate, Account, StorageInfo, StorageUsed, '
              'StorageUsedShort, AccountStorage, AccountState, StateInit, ShardAccount, ShardAccounts, DepthBalanceInfo, AccountBlock, '
@@ -34,19 +51,26 @@ SPEC = dict(
              '(as in the parser); chained signatures and addr_var addresses are not generated.',
         level_note='Theorems are about the Lean spec codec pair (the independent implementation of the schema), for all values. '
                    'The Python parsers are NOT translated: they are tied by differential testing against the spec encoder on '
-                   'generated values (every constructor, optional-field combination, boundary and random field values) and on '
-                   'the bundled block. Trusted: transcription of block.tlb into Spec/Tlb/Block.lean, the attribute table in '
-                   'harness/props/C16.py, the driver and cell construction.',
+                   'generated values (every constructor, optional-field combination, boundary and random field values), on '
+                   'the bundled block, and by agreement of the typed read sequence on every path of the schema (path-complete / '
+                   'local path-complete lists in the text) — a parser branching on a field VALUE the schema does not branch on is '
+                   'outside that enumeration. Trusted: transcription of block.tlb into Spec/Tlb/Block.lean, the attribute table in '
+                   'harness/props/C16.py, harness/tracetlb.py (recording slice, trace alignment), the driver and cell construction.',
         technique='Lean 4 proof (lawful codec combinators, laws composed by type-class resolution) + differential '
-                  'encoder->parser correspondence with the library'),
+                  'encoder->parser correspondence with the library + path-complete read-trace comparison (recording slice vs '
+                  'proved spec trace)'),
     design_ref='DESIGN.md §6 C16',
     rule='for every covered type: values generated by the Lean codec generators (every constructor alternative and Maybe/Either '
          'choice at random, integer fields from {0, 1, max, top bit, random}, random bit strings, random small Patricia trees) '
-         'encoded by the spec encoder with a random trailer of bits and refs; distinct = distinct (type, seed); non-trivial = encodable',
+         'encoded by the spec encoder with a random trailer of bits and refs; plus one value per PATH of the schema term '
+         '(tlbpaths full / loc, cap 300 quick, 3000 thorough; a path = its index in the fixed enumeration order); '
+         'distinct = distinct (type, seed) / (type, mode, seed, path index); non-trivial = encodable',
     trusted_base=['Spec/Tlb/Block.lean transcribes block.tlb (+ upstream constructors the parsers read) by hand',
                   'harness/props/C16.py READERS: library attribute <-> schema field table', 'harness/gen/tlbvals.py flattening of spec trees',
-                  'Drv/Tlb.lean value printing and DAG emission; harness/gen/cells.lib_build'],
-    assumptions=['encoder->parser correspondence is sampled differential testing',
+                  'Drv/Tlb.lean value printing and DAG emission; harness/gen/cells.lib_build',
+                  'harness/tracetlb.py: RecSlice records every primitive read of pytoniq_core.boc.slice.Slice; alignment rules of compare()'],
+    assumptions=['encoder->parser correspondence is sampled differential testing; read-trace agreement is per path of the SCHEMA term',
+                 'dictionary / BinTree shapes and the prepare_transaction nesting depth are sampled, not enumerated',
                  'Transaction nesting (prepare_transaction) is generated to depth 3; the theorem holds for every budget',
                  'addr_var addresses are in the spec but not generated (library has no addr_var; addresses belong to C06/C15)'],
 )
@@ -715,11 +739,17 @@ def check_value(ctx, P, ty, seed, g, tag='gen'):
         return True
     m = mism[0]
     ctx.count('trace_mismatch:' + m['kind'])
-    ex = exhibit(ctx, P, ty, g, m)
     pth = re.sub(r'\[[0-9]*\]', '', str(m.get('path')))
+    done = ctx.stats.setdefault('trace_exhibited', {})
+    key = f'trace:{ty}:{m["kind"]}:{pth}'
+    if done.get(key, 0) >= 2:
+        return False                      # this mismatch already has its concrete failing values
+    ex = exhibit(ctx, P, ty, g, m)
+    if ex is not None:
+        done[key] = done.get(key, 0) + 1
     if ex is not None:
         g2, f2 = ex
-        ctx.fail(f'trace:{ty}:{m["kind"]}:{pth}', f'{ty}: read trace differs from the schema ({m["detail"]}); on this value of the same shape: {f2[1]}',
+        ctx.fail(key, f'{ty}: read trace differs from the schema ({m["detail"]}); on this value of the same shape: {f2[1]}',
                  inp_of(g2), f2[2], f2[3])
     else:
         ctx.corr_broken(f'read trace of {ty}.deserialize differs from the spec codec on {ty} seed {seed} ({tag}): {m["kind"]}: {m["detail"]} '
